@@ -53,7 +53,10 @@ int tid() {
     return tl_tid;
 }
 
+std::atomic<bool> g_recording{true};
+
 void record(const char* e, int64_t x, bool hasx, int64_t n, bool hasn) {
+    if (!g_recording.load(std::memory_order_relaxed)) return;
     const int t = tid();
     const std::lock_guard<std::mutex> lock{g_trace_mutex};
     g_trace.push_back(Ev{e, t, x, n, hasx, hasn});
@@ -286,9 +289,15 @@ int main(int argc, char** argv) {
     g_out << header.dump() << "\n";
     const std::string mode = sc["mode"];
     bool first = true;
+    // executions beyond "trace_first" run without a trace (their termination is still watched by the watchdog): the trace
+    // of a storm of tens of thousands of tiny executions is validated on a prefix
+    const long trace_first = sc.value("trace_first", -1L);
+    long nexec = 0;
     for (const auto& s : sc["seeds"]) {
         g_seed = s.get<uint64_t>();
-        if (!first) {
+        if (trace_first >= 0 && nexec >= trace_first) g_recording = false;
+        ++nexec;
+        if (!first && g_recording.load()) {
             g_out << json{{"e", "Reset"}, {"t", 0}, {"seed", g_seed}}.dump() << "\n";
         }
         first = false;
